@@ -53,6 +53,11 @@ def command_lines(ck, wd):
         ["php", "4", "3", "-T", "shuffle"], ["php", "3", "2", "-T", "xorcomp", "6", "2"],
         ["op", "4", "-T", "majcomp", "6", "3"], ["randkcnf", "3", "6", "8", "-T", "shuffle", "-T", "xor", "2"],
         ["kcolor", "3", "gnp", "6", ".5", "-T", "shuffle", "--no-polarity-flips"],
+        # random graph specifications as arguments of a transformation
+        ["php", "3", "2", "-T", "xorcomp", "glrd", "6", "5", "2"], ["op", "4", "-T", "majcomp", "glrp", "6", "5", ".6"],
+        ["php", "3", "2", "-T", "xorcomp", "regular", "6", "6", "2"], ["php", "3", "2", "-T", "majcomp", "glrm", "6", "4", "13"],
+        ["php", "3", "2", "-T", "xorcomp", "glrd", "6", "5", "1", "addedges", "3"],
+        ["kcolor", "2", "gnp", "4", ".5", "-T", "xorcomp", "glrd", "8", "6", "2", "-T", "shuffle"],
     ]
     out = []
     for a in both:
